@@ -6,8 +6,8 @@ Facts extracted (all syntactic properties of the source text):
   2. every mention of HashMap|HashSet|RandomState|BTreeMap|BTreeSet|IndexMap|IndexSet in impl/src (outside
      `#[cfg(test)]` modules) with its resolved origin (crate alias / alias definition / std::collections / ordered /
      unresolved) and whether a binding of it is iterated in that file;
-  3. every occurrence of a global-state / environment pattern: `static` items, thread_local!, lazy_static!,
-     Once*/Lazy*, Atomic*, SystemTime/Instant/UNIX_EPOCH, env:: / env! / option_env!, process::id, `{:p}` in a
+  3. every occurrence of a global-state / environment pattern: `static` items, thread_local!, lazy_static!
+     (and the RefCell/Cell/Mutex/RwLock/Once*/Lazy* inside them), Box::leak, Once*/Lazy*, Atomic*, SystemTime/Instant/UNIX_EPOCH, env:: / env! / option_env!, process::id, `{:p}` in a
      format-like macro of the macro crate itself, rand/getrandom, fs:: / File::, as_ptr / `*const` casts.
 
 Unknown syntax is an error (TranslatorError), not a skip.  Independent grep-level counts are compared with the
@@ -26,6 +26,8 @@ ORDERED = {"BTreeMap", "BTreeSet", "IndexMap", "IndexSet"}
 ITER_METHODS = {"iter", "into_iter", "iter_mut", "drain", "keys", "values", "values_mut", "into_keys", "into_values",
                 "retain", "extract_if"}
 TEMPLATE_MACROS = {"quote", "quote_spanned", "parse_quote", "parse_quote_spanned"}
+INTERIOR = {"RefCell", "Cell", "UnsafeCell", "Mutex", "RwLock", "OnceCell", "OnceLock", "LazyCell", "LazyLock",
+            "Condvar", "Once"}
 FORMAT_MACROS = {"format", "write", "writeln", "print", "println", "eprint", "eprintln", "panic", "format_args",
                  "format_ident", "unreachable", "assert", "debug_assert", "todo", "unimplemented"}
 
@@ -362,6 +364,49 @@ def scan_file(root, path, alias_names):
     for m in fs.mentions:
         names.update(m["bindings"])
     flat = fs.toks
+    # a value taken out of / derived from a hash-bound name is hash-bound too:
+    # `let [mut] X = .. NAME ..;` (e.g. `let mut t = SCRATCH.with(RefCell::take);`, `let tys = tys.iter();`)
+    root = {nm: nm for nm in names}
+    changed = True
+    while changed:
+        changed = False
+        k = 0
+        while k < len(flat):
+            if is_id(flat[k], "let"):
+                j = k + 1
+                pat = []
+                while j < len(flat) and not is_p(flat[j], "=") and not is_p(flat[j], ";"):
+                    if is_id(flat[j]) and flat[j].text not in ("mut", "ref"):
+                        pat.append(flat[j].text)
+                    if is_p(flat[j], ":"):
+                        break
+                    j += 1
+                while j < len(flat) and not is_p(flat[j], "=") and not is_p(flat[j], ";"):
+                    j += 1
+                e = j
+                d = 0
+                src_name = None
+                while e < len(flat):
+                    if flat[e].kind == "open":
+                        d += 1
+                    elif flat[e].kind == "close":
+                        if d == 0:
+                            break
+                        d -= 1
+                    elif d == 0 and is_p(flat[e], ";"):
+                        break
+                    elif is_id(flat[e]) and flat[e].text in names and src_name is None \
+                            and not (e > 0 and is_p(flat[e - 1], ".")):
+                        src_name = flat[e].text
+                    e += 1
+                if src_name is not None:
+                    for x in pat:
+                        if x not in names:
+                            names.add(x)
+                            root[x] = root[src_name]
+                            changed = True
+                k = j
+            k += 1
     sites = []
     for k, t in enumerate(flat):
         if is_id(t) and t.text in names:
@@ -378,9 +423,9 @@ def scan_file(root, path, alias_names):
                 if j >= 0 and is_id(flat[j], "in"):
                     sites.append((t.text, t.line, "for-in"))
     fs.iter_sites = sites
-    iterated = set(s[0] for s in sites)
+    iterated = set(root.get(s[0], s[0]) for s in sites)
     for m in fs.mentions:
-        m["iterated"] = any(b in iterated for b in m["bindings"])
+        m["iterated"] = any(root.get(b, b) in iterated for b in m["bindings"])
     return fs
 
 
@@ -431,7 +476,45 @@ def scan_body(fs, items, modpath, uses, local_types):
             k = j
         k += 1
 
+    # static-like contexts: `thread_local! {..}`, `lazy_static! {..}`, `static NAME: T = ..;`
+    in_static = [False] * len(flat)
+    k = 0
+    while k < len(flat):
+        t = flat[k]
+        if is_id(t) and t.text in ("thread_local", "lazy_static") and k + 2 < len(flat) and is_p(flat[k + 1], "!") \
+                and flat[k + 2].kind == "open":
+            d = 0
+            j = k + 2
+            while j < len(flat):
+                if flat[j].kind == "open":
+                    d += 1
+                elif flat[j].kind == "close":
+                    d -= 1
+                    if d == 0:
+                        break
+                in_static[j] = True
+                j += 1
+            k = j
+        elif is_id(t, "static") and not in_tpl[k]:
+            j = k
+            d = 0
+            while j < len(flat):
+                if flat[j].kind == "open":
+                    d += 1
+                elif flat[j].kind == "close":
+                    if d == 0:
+                        break
+                    d -= 1
+                elif d == 0 and is_p(flat[j], ";"):
+                    break
+                in_static[j] = True
+                j += 1
+            k = j
+        k += 1
+
     for k, t in enumerate(flat):
+        if t.kind == "ident" and in_static[k] and t.text in INTERIOR:
+            fs.state.append({"kind": "SInteriorMut", "line": t.line, "text": t.text, "in_template": in_tpl[k]})
         if t.kind == "ident" and t.text in WATCH:
             if k >= 1 and is_id(flat[k - 1], "type"):
                 continue                      # the name being defined by the alias itself
@@ -479,6 +562,10 @@ def scan_body(fs, items, modpath, uses, local_types):
                 st = "SFs"
             elif x in ("as_ptr", "as_mut_ptr", "addr_of", "addr_of_mut"):
                 st = "SAddress"
+            elif x == "leak" and k >= 1 and (is_p(flat[k - 1], ".") or is_p(flat[k - 1], ":")):
+                st = "SStatic"            # Box::leak / Vec::leak: a value that outlives the expansion
+            elif x in ("set_var", "remove_var", "set_current_dir"):
+                st = "SEnv"
             elif x in FORMAT_MACROS and nxt is not None and is_p(nxt, "!") and nx2 is not None and nx2.kind == "open":
                 # string literals directly inside the macro call
                 d = 0
